@@ -31,12 +31,12 @@ ENC = ("indi.client.vectors.Vector.submit", "indi.client.elements.Element.value"
        "indi.device.properties.instance.elements.*.set_value_from_message", "indi.device.values.str_to_num",
        "indi.device.values.BLOB.from_base64", "indi.client.vectors.Vector.process_message", "indi.client.elements.Element.process_message")
 BOUNDS = {"quick": "targets: TXT(2 elements), SW OneOfMany(3), ANY AnyOfMany(2), NUM(3 formats %.2f %d %.3m), BLOB(2) on device DEV with a same-named "
-                   "vector on device OTHER; every non-empty element subset (symbolic bits); text len<=1; numbers from 4 spellings (int, decimal text, d:mm, d:mm:ss); BLOB length 0..2",
+                   "vector on device OTHER; every non-empty element subset (symbolic bits); text len<=1; numbers from 5 spellings (int, decimal text, d:mm, d:mm:ss, negative with zero whole part); BLOB length 0..2",
           "thorough": "as quick plus the library two-connection client for every target"}
 OUTSIDE = "fragmentation of the wire stream (premise C02); float rendering (C10)"
 ASSUMPTIONS = ["tree wire (C03)", "switch-rule side effects are C09's subject"]
 
-NUMBER_SPELLINGS = ((5, Fraction(5)), ("-1.25", Fraction(-5, 4)), ("1:30", Fraction(3, 2)), ("0:30:36", Fraction(51, 100)))
+NUMBER_SPELLINGS = ((5, Fraction(5)), ("-1.25", Fraction(-5, 4)), ("1:30", Fraction(3, 2)), ("0:30:36", Fraction(51, 100)), ("-0:30", Fraction(-1, 2)))
 FILL = bytes(range(40, 48))
 TARGETS = {"TXT": ("A", "B"), "SW": ("S0", "S1", "S2"), "ANY": ("P", "Q"), "NUM": ("N", "S"), "BLOB": ("X", "Y")}   # NUM: %.2f and %.3m elements
 
